@@ -1,7 +1,6 @@
 package verifh
 
 import (
-	"errors"
 	"fmt"
 	"strings"
 	"sync"
@@ -69,8 +68,9 @@ func checkC14Cfg(c c14CfgCase) verdict {
 		if okk, verr := otp.ValidateOCRA("MFRGGZDFMZTWQ2LK", code, lc, in); !okk || verr != nil {
 			return bad(true, labels, "ValidateOCRA rejects the code just generated for the usable suite %+v: %v", c.Cfg, verr)
 		}
-	} else if okk, verr := otp.ValidateOCRA("MFRGGZDFMZTWQ2LK", "000000", lc, in); okk || verr == nil || errors.Is(verr, otp.ErrInvalidCode) {
-		return bad(true, labels, "ValidateOCRA answered (%v, %v) for the unusable suite %+v; want a suite error", okk, verr, c.Cfg)
+	} else if okk, verr := otp.ValidateOCRA("MFRGGZDFMZTWQ2LK", "000000", lc, in); okk || verr == nil {
+		// which error a refusal carries is not pinned by the statements (a validator may answer every failure alike)
+		return bad(true, labels, "ValidateOCRA answered (%v, %v) for the unusable suite %+v; want (false, an error)", okk, verr, c.Cfg)
 	}
 	return ok(true, labels...)
 }
